@@ -125,6 +125,21 @@ CHECKS = {
         "(well-formedness, cost = observed average_port_pressure, loaded entry lists = alias-expanded export, --db-check counts = counts TLC computes); the analysis path is run on every loaded entry in thorough.",
    design_ref="5/C15, 10.6", technique="TLA+ entry well-formedness / cost definitions evaluated by TLC over all exported entries + costing by the real code",
    note="TLC acts as evaluator of a data property (DESIGN section 8); the syntactic entry encoder in port_common.py is trusted; bdw/csx/skx are skipped as the property says."),
+
+ "C16": dict(
+   category="model_checking",
+   text="TLC explores the coordinator/worker state machine of check_for_loopcarried_dep (LCDSearchSM: StartAll, WStep, Tick, Check, Sleep, Kill, JoinAll, Copy, PostProcess) exhaustively - every interleaving, NW in {1,2,3,5,16,K+1}, poll loop and no timeout; "
+        "terminal result = sequential result, partition exact. A transition cover of the dumped state graph plus simulated behaviours for larger K/NW is replayed on the REAL coordinator and worker code under a deterministic virtual-process scheduler (Process/Manager/cpu_count/time/os "
+        "substituted from outside) with the state compared after every action. Real fork runs (kernels at and above the 50-line threshold, worker counts {1,2,3,5,16,>K}, seeded delays) and CLI repeats are validated by Trace_LCDSearch against the sequential search.",
+   design_ref="5/C16, 10.9", technique="TLA+ state machine + TLC exhaustive/simulation + transition-cover replay under virtual processes + trace validation of real multi-process runs",
+   note="Trusts the fakes in harness/vproc.py (SIGKILL semantics, atomic list request), the log projection in lcd_common.py and the abstract-kernel renderer; exhaustive for K <= 6, sampled above; quick replays a seeded sample of the cover paths."),
+ "C19": dict(
+   category="model_checking",
+   text="Same state machine with the deadline able to pass at any moment (Tick): SoundPartial, CompleteWhenNotTimedOut, NoOrphans, NoLateWrites, WarnIffCut are invariants of the protocol now in the code; the configuration with the former deviation DeadlineTestFirst gives the WarnIffCut "
+        "counterexample that was replayed on the code (F11). The transition cover is replayed with virtual time; real runs on kernel_x86_long_LCD.s and generated dense kernels with timeouts {0,1,2,generous,-1} measure wall time (in-run calibration, confirm-on-rerun), children left, report warning <=> flag, "
+        "partial results subset of the untimed result (or TLC-checked genuine cycles); the sequential path (< 50 lines) is timed with a per-root delay and judged by abandoned enumerations.",
+   design_ref="5/C19, 10.9", technique="TLA+ state machine with timeout + TLC exhaustive + transition-cover replay with virtual time + measured real runs validated by TLC",
+   note="The wall-clock bound is measured, not modelled; the post-deadline overhead of copying and post-processing many paths is a recorded finding (F39, load-dependent)."),
  "C12": dict(
    category="model_checking",
    text="TLC enumerates every ordered pair of register names of both ISAs (MC_RegAlias: equivalence relation, family sizes), "
